@@ -827,6 +827,15 @@ func Run(r *ev.Run) {
 
 // ---- sink factories that use zap themselves ---------------------------------------------------------
 
+type valueSink struct {
+	tags []string
+	i    *inst
+}
+
+func (v valueSink) Write(p []byte) (int, error) { return v.i.Write(p) }
+func (v valueSink) Sync() error                 { return v.i.Sync() }
+func (v valueSink) Close() error                { return v.i.Close() }
+
 type composite struct {
 	zapcore.WriteSyncer
 	closeFn func()
@@ -860,6 +869,69 @@ func reentrantFactories(r *ev.Run, e *env) {
 		}
 		return composite{w, closeFn}, nil
 	})
+	// sinks handed out by value: a struct with a slice field is a perfectly good Sink
+	val := fmt.Sprintf("vsval%d", os.Getpid())
+	_ = zap.RegisterSink(val, func(u *url.URL) (zap.Sink, error) {
+		s, err := factory(u)
+		if err != nil {
+			return nil, err
+		}
+		return valueSink{tags: []string{u.Host}, i: s.(*inst)}, nil
+	})
+	for i, nv := 0, r.N(20, 300); i < nv; i++ {
+		id := fmt.Sprintf("c19/value-sinks/%d", i)
+		if !r.Want(id) {
+			continue
+		}
+		k := 1 + i%4
+		var paths []string
+		for j := 0; j < k; j++ {
+			paths = append(paths, fmt.Sprintf("%s://ok/value-%d-%d", val, i, j))
+		}
+		if i%5 == 4 {
+			paths = append(paths, paths[0]) // the same destination listed twice: it is opened, and written, twice
+		}
+		resetInstances()
+		var w zapcore.WriteSyncer
+		var closeFn func()
+		var err error
+		pn := ev.Guard(func() { w, closeFn, err = zap.Open(paths...) })
+		r.Eval(1)
+		r.Count("opens_of_sinks_returned_by_value", 1)
+		r.Distinct(fmt.Sprintf("valuesinks|%d|%d", k, len(paths)))
+		bad := func(class, f string, a ...any) {
+			r.Violate(ev.Violation{Case: id, Class: class, Msg: fmt.Sprintf("Open(%d custom sinks returned by value as a struct with a slice field): ", len(paths)) + fmt.Sprintf(f, a...), Witness: paths})
+		}
+		if pn != "" {
+			bad("open-panic", "panicked: %s", pn)
+			continue
+		}
+		if err != nil {
+			bad("open-spurious-error", "Open returned %v", err)
+			continue
+		}
+		msg := fmt.Sprintf("to-value-sinks-%d\n", i)
+		if p2 := ev.Guard(func() { _, _ = w.Write([]byte(msg)); _ = w.Sync() }); p2 != "" {
+			bad("open-panic", "writing to the opened sinks panicked: %s", p2)
+			continue
+		}
+		ins := openInstances()
+		if len(ins) != len(paths) {
+			bad("destination-missed", "%d sinks were opened for %d paths", len(ins), len(paths))
+		}
+		for _, in := range ins {
+			got := 0
+			for _, wr := range in.writes {
+				if string(wr) == msg {
+					got++
+				}
+			}
+			if got != 1 {
+				bad("destination-missed", "sink %s received the write %d times, want 1", in.url, got)
+			}
+		}
+		closeFn()
+	}
 	n := r.N(12, 200)
 	for i := 0; i < n; i++ {
 		id := fmt.Sprintf("c19/reentrant/%d", i)
